@@ -412,6 +412,36 @@ def root(a: int):
     return r
 """
 
+# closures handed out in a tuple / a list by a folded subroutine
+CLOSURE_SHAPES["closures-in-a-tuple"] = """
+@move{MDEC}
+def maker():
+    def first(a: int):
+        return ({L0}, a)
+    def second(a: int):
+        return ({L1}, a + 1)
+    return (first, second)
+
+@move{DEC}
+def root(a: int):
+    fs = maker()
+    return (fs[0](a), fs[1](a))
+"""
+# a subroutine that returns from inside a branch, its fall-through value being a looked-up value (a constant once injected)
+CLOSURE_SHAPES["early-return-in-a-branch"] = """
+@move{MDEC}
+def maker(k: int):
+    v = {L0}
+    if k > 0:
+        return ({L1}, 7)
+    return (v, 0)
+
+@move{DEC}
+def root(a: int):
+    # (a consumer of the call's result all of whose other operands are constants)
+    return (maker(a), 7)
+"""
+
 CLOSURE_ROOT = """
 @move{DEC}
 def root(a: int):
